@@ -42,6 +42,16 @@ def run(ctx):
         c["pts"] = pts
         cases.append(c)
     _tempo.judge(ctx, cases, "C01", "seeded maps with tempo changes days into the chart", queries=_queries)
+    # long tempo maps (a code path may depend on the NUMBER of tempo events)
+    cases = []
+    for k in range(ctx.pick(12, 300)):
+        res, tempo, pts = tm.seeded_map(r, min_segments=r.choice([9, 17, 33, 65, 130]), max_segments=r.choice([140, 400]))
+        if len(pts) > 120:
+            pts = sorted(set(r.sample(pts, 100) + [pts[0], pts[-1], tempo[-1][0], tempo[-1][0] + 1]))
+        c = tm.chart_case_from_map(r, f"C01-long{k}", res, tempo, pts)
+        c["pts"] = pts
+        cases.append(c)
+    _tempo.judge(ctx, cases, "C01", "seeded long tempo maps", queries=_queries)
     ctx.assumptions += [
         "float64 is observed, not modelled: the bound is half a microsecond plus 1 ns of float slack per traversed segment, for times below 10^6 s",
         "floor-division witnesses are supplied by the harness and verified by TLC (q*d <= n < (q+1)*d)",
